@@ -348,7 +348,15 @@ func ruleConstructorDiscipline(w *World, r *Run, rule, pkg, typ string, ctors []
 
 func ruleInitBeforeUse(w *World, r *Run, rule string) {
 	type ctor struct{ fn, pkg, typ string }
-	for _, c := range []ctor{{fnWitnessNew, pWitness, "Witness"}, {fnFeedBastion, pBastion, "addHandler"}, {fnNewDist, pRest, "Distributor"}} {
+	cs := []ctor{{fnWitnessNew, pWitness, "Witness"}, {fnFeedBastion, pBastion, "addHandler"}}
+	dcs := ctorsOf(w, pRest, "Distributor")
+	if len(dcs) == 0 {
+		dcs = []string{fnNewDist}
+	}
+	for _, dc := range dcs {
+		cs = append(cs, ctor{dc, pRest, "Distributor"})
+	}
+	for _, c := range cs {
 		// the package's counters and the function(s) that only Once.Do runs to create them
 		names, onces := counterBindings(w, r, c.pkg, rule)
 		if len(names) == 0 || len(onces) == 0 {
@@ -366,19 +374,39 @@ func ruleInitBeforeUse(w *World, r *Run, rule string) {
 			continue
 		}
 		for _, s := range sums {
-			first := false
+			if s.Panic {
+				continue
+			}
+			// the Once must have run before the constructed value can be used: before any increment, before the serving
+			// loop is entered, and on every path that hands out a value. A path that validates its arguments and gives up with
+			// an error first constructs nothing.
+			onceSeq := 0
 			for _, ev := range s.Events {
-				if ev.Kind != "call" || calleePkg(ev.Callee) == "k8s.io/klog/v2" {
-					continue
+				if ev.Kind == "call" && ev.Callee == "(*sync.Once).Do" && len(ev.Args) == 1 && ev.Args[0] != nil && (ev.Args[0].Kind == "func" || ev.Args[0].Kind == "closure") && onceNames[ev.Args[0].Name] && onceSeq == 0 {
+					onceSeq = ev.Seq
 				}
-				if ev.Callee == "(*sync.Once).Do" && len(ev.Args) == 1 && ev.Args[0] != nil && (ev.Args[0].Kind == "func" || ev.Args[0].Kind == "closure") && onceNames[ev.Args[0].Name] {
-					first = true
+			}
+			first := true
+			for _, ev := range s.Events {
+				if ev.Kind == "call" && (ev.Callee == cInc || ev.Callee == fnConnect) && (onceSeq == 0 || ev.Seq < onceSeq) {
+					first = false
 				}
-				break
+			}
+			if onceSeq == 0 && len(s.Rets) >= 1 && len(s.Rets) <= 2 {
+				if len(s.Rets) == 2 && s.Rets[0].Kind != "nil" {
+					first = false // a value is handed out
+				}
+				if !neverNil(s.Rets[len(s.Rets)-1]) {
+					first = false // the path reports success
+				}
 			}
 			r.Check(first, rule, c.fn+" | the counters are created (under their Once) before anything else on every path", w.pos(s.RetPos), "constructor path does not start by creating the package's counters: they would be nil interfaces and the first Inc would panic")
 		}
-		ruleConstructorDiscipline(w, r, rule, c.pkg, c.typ, []string{c.fn})
+		if c.typ == "Distributor" {
+			ruleConstructorDiscipline(w, r, rule, c.pkg, c.typ, dcs)
+		} else {
+			ruleConstructorDiscipline(w, r, rule, c.pkg, c.typ, []string{c.fn})
+		}
 		// every counter of the package that is incremented through a package-level location is among them
 		for _, fn := range w.prodFns() {
 			if pkgPathOf(fn) != c.pkg {
@@ -410,7 +438,31 @@ const (
 )
 
 func mainOpaque() []string {
-	return []string{fnAsLogMap, fnNewLog, fnWitnessNew, fnFeedFunc, fnNewServer, "(*" + pIHTTP + ".Server).RegisterHandlers", fnNewDistributor, fnDistOnceM, fnFeedBastion}
+	out := []string{fnAsLogMap, fnNewLog, fnWitnessNew, fnFeedFunc, fnNewServer, "(*" + pIHTTP + ".Server).RegisterHandlers", fnNewDistributor, fnDistOnceM, fnFeedBastion}
+	return append(out, distCtors...)
+}
+
+// distCtors: every package-level function of the distributor package that returns a *Distributor (filled by ctorsOf when
+// the world is loaded): a second constructor (with options) is a constructor too.
+var distCtors []string
+
+// ctorsOf lists the package-level functions of pkg whose first result is typ or *typ.
+func ctorsOf(w *World, pkg, typ string) []string {
+	var out []string
+	for _, fn := range w.prodFns() {
+		if fn.Parent() != nil || fn.Signature.Recv() != nil || pkgPathOf(fn) != pkg || fn.Signature.Results().Len() == 0 {
+			continue
+		}
+		rt := fn.Signature.Results().At(0).Type()
+		if p, ok := rt.Underlying().(*types.Pointer); ok {
+			rt = p.Elem()
+		}
+		if n, ok := rt.(*types.Named); ok && n.Obj().Name() == typ && n.Obj().Pkg() != nil && n.Obj().Pkg().Path() == pkg {
+			out = append(out, funcName(fn))
+		}
+	}
+	sort.Strings(out)
+	return out
 }
 
 type mainPath struct {
@@ -437,6 +489,8 @@ func mainPaths(w *World, r *Run, rule string) ([]mainPath, *Engine, bool) {
 			return nil, nil, false
 		}
 		e := w.engine(6, 2) // two configuration entries: pairings by position can only go wrong from the second entry on
+		e.maxPaths = 60000
+		e.scalarLoopsOnce = true
 		for _, o := range mainOpaque() {
 			e.opaque[o] = true
 		}
@@ -610,7 +664,7 @@ func ruleOneWitness(w *World, r *Run, rule string) {
 				r.Check(have[lg], "C17.b", fnMain+" | "+where+" gets every configured log", pos, "a configured log is in the witness's map but missing from the list given to the "+where+" (witness map and feeder/endpoint list describe different sets of logs)")
 			}
 		}
-		for _, nd := range calls(s, fnNewDistributor) {
+		for _, nd := range calls(s, append([]string{fnNewDistributor}, distCtors...)...) {
 			if len(nd.Args) >= 3 {
 				checkList(nd.Args[2], "distributor", w.pos(nd.Pos))
 			}
